@@ -56,7 +56,7 @@ pub fn gen_replay(rng: &mut Rng, k: usize, o: &GenOpts) -> (Replay, Vec<String>)
         0 => prev + 1, 1 => if rng.next() % 3 == 0 { prev } else { prev + 1 }, 2 => if rng.next() % 4 == 0 { (prev - (rng.next() % 4) as i32).max(-123) } else { prev + 1 },
         _ => if rng.next() % 5 == 0 { -123 + (rng.next() % (i as u64 + 1)) as i32 } else { prev + 1 } }; } }
     // item counts per frame at the boundaries of small counters (the recorder never emits that many; the format allows it)
-    if gte(v,3,0) && !r.frames.is_empty() && k % 8 == 1 { let n = [15usize, 16, 17, 255, 256, 257, 300][(k / 8) % 7]; let fi = (rng.next() as usize) % r.frames.len(); let isz = r.frames[fi].items.first().map_or(0, |x| x.len());
+    if gte(v,3,0) && !r.frames.is_empty() && k % 6 == 1 { let n = [16usize, 256, 17, 257, 15, 300, 255][(k / 6) % 7]; let fi = (rng.next() as usize) % r.frames.len(); let isz = r.frames[fi].items.first().map_or(0, |x| x.len());
         let isz = if isz == 0 { crate::gen::item_size(v) - 4 } else { isz }; while r.frames[fi].items.len() < n { r.frames[fi].items.push(rng.bytes(isz)); } }
     let shape = if k % 2 == 0 { (k / 2) % 6 } else { (rng.next() % 6) as usize };
     match shape { 0 => r.end = None, 1 => r.metadata = None, 2 => r.double_end = true, 3 => { r.end = None; r.metadata = None; } _ => {} }
